@@ -296,7 +296,7 @@ def classify(spec, what, vj, detail):
             return 'empty-view'
         if any(M[i][i] == 0 for i in range(n)):
             return 'permuted-axes'
-        if what.startswith('link_w2p') or what.startswith('w2p_single'):
+        if (what.startswith('link_w2p') or what.startswith('w2p_single')) and any(M[i][j] != 0 for i in range(n) for j in range(n) if i != j):
             return 'sheared-inverse'
     elif isinstance(detail, dict) and detail.get('impl_exception') == 'IndexError' and detail.get('expected_size') == 0:
         return 'empty-view'
@@ -761,8 +761,43 @@ def stream_magnitudes(R):
                    'triangular, 1-3 dims, sizes 2..5, offsets = small integer multiples of the smallest entry of the row; tolerance 1e-9 x row scale x extent')
 
 
+LAYOUTS = ['C', 'F', 'T', 'perm', 'neg', 'neg-last', 'strided', 'strided-first']
+
+
+def apply_layout(arr, name):
+    """the same values and shape in another memory layout (Fortran order, transposed storage, negative strides, non-contiguous views)"""
+    arr = np.array(arr, dtype=float)
+    if arr.ndim == 0 or name == 'C':
+        return np.ascontiguousarray(arr)
+    if name == 'F':
+        return np.asfortranarray(arr)
+    if name == 'T':
+        return np.ascontiguousarray(arr.T).T
+    if name == 'perm':
+        ax = list(range(arr.ndim))
+        ax[0], ax[-1] = ax[-1], ax[0]
+        if arr.ndim >= 3:
+            ax[0], ax[1] = ax[1], ax[0]
+        inv = np.argsort(ax)
+        return np.ascontiguousarray(arr.transpose(ax)).transpose(inv)
+    if name == 'neg':
+        return np.ascontiguousarray(arr[::-1])[::-1]
+    if name == 'neg-last':
+        return np.asfortranarray(arr[..., ::-1])[..., ::-1]
+    if name == 'strided':
+        big = np.zeros(arr.shape[:-1] + (2 * arr.shape[-1],))
+        big[..., ::2] = arr
+        return big[..., ::2]
+    if name == 'strided-first':
+        big = np.zeros((3 * arr.shape[0],) + arr.shape[1:], order='F')
+        big[1::3] = arr
+        return big[1::3]
+    raise ValueError(name)
+
+
 def stream_single_axis(R):
-    """the helpers called directly with inputs that are broadcast along arbitrary axes and whose first element is not special"""
+    """the helpers called directly with inputs that are broadcast along arbitrary axes or stored in another memory layout
+    (Fortran, transposed, negative strides, non-contiguous), and whose first element is not special"""
     from glue.core.coordinate_helpers import pixel2world_single_axis, world2pixel_single_axis
     N = R.pick(600, 5000)
     lines, meta = [], []
@@ -773,13 +808,20 @@ def stream_single_axis(R):
         if rng.random() < 0.3:
             spec = ('aff',) + random_magnitudes(rng, n)
         c = mk_coords(spec)
-        oshape = tuple(rng.choice([1, 2, 3]) for _ in range(rng.choice([1, 2, 3])))
-        ins = []
+        oshape = tuple(rng.choice([1, 2, 3, 4]) for _ in range(rng.choice([1, 2, 2, 3])))
+        ins, layouts = [], []
         for k in range(n):
-            flags = [rng.random() < 0.4 for _ in oshape]
-            small = tuple(1 if f else s for f, s in zip(flags, oshape))
-            vals = np.array([rng.choice([-2, -1, 0, 1, 2, 3, 0.5]) for _ in range(int(np.prod(small)))], dtype=float).reshape(small)
-            ins.append(np.broadcast_to(vals, oshape))
+            if rng.random() < 0.45:
+                flags = [rng.random() < 0.4 for _ in oshape]
+                small = tuple(1 if f else s for f, s in zip(flags, oshape))
+                vals = np.array([rng.choice([-2, -1, 0, 1, 2, 3, 0.5]) for _ in range(int(np.prod(small)))], dtype=float).reshape(small)
+                ins.append(np.broadcast_to(vals, oshape))
+                layouts.append('broadcast')
+            else:
+                vals = np.array([rng.choice([-2, -1, 0, 1, 2, 3, 0.5, 4, -3]) for _ in range(int(np.prod(oshape)))], dtype=float).reshape(oshape)
+                lay = rng.choice(LAYOUTS)
+                ins.append(apply_layout(vals, lay))
+                layouts.append(lay)
         for direction in (1, 0):
             for ax in range(n):
                 try:
@@ -802,10 +844,10 @@ def stream_single_axis(R):
                     flat = [a.ravel() for a in ins]
                     exp = np.array([float(apply_exact(A, b, [F(float(f[p])) for f in flat])[ax]) for p in range(len(flat[0]))]).reshape(oshape)
                 case = {'stream': 'single_axis', 'coords': spec_json(spec), 'direction': 'p2w' if direction else 'w2p', 'axis': ax,
-                        'inputs': [a.tolist() for a in ins]}
+                        'inputs': [a.tolist() for a in ins], 'layouts': layouts}
                 nm = ('p2w_single' if direction else 'w2p_single')
                 R.count(('single', spec, direction, ax, tuple(a.tobytes() for a in ins), oshape), nontrivial=len(flat[0]) > 1 if spec[0] != 'id' else False,
-                        stream='single_axis', ndim=n, matrix_kind=matrix_kind(spec))
+                        stream='single_axis', ndim=n, matrix_kind=matrix_kind(spec), input_ndim=len(oshape), layout='/'.join(sorted(set(layouts))))
                 tol = TOL * float(dir_scale(spec, direction, [float(np.max(np.abs(a))) for a in ins])[ax])
                 if not same(r, exp, tol):
                     oracle_fail(R, case, {'impl': brief(r), 'expected': brief(exp), 'tolerance': tol}, key=classify(spec, nm, None, None))
@@ -819,7 +861,86 @@ def stream_single_axis(R):
         if not same(r, m, tol):
             corr_fail(R, case, {'model': brief(m), 'impl': brief(r), 'tolerance': tol})
     R.stream('single_axis', cases=len(lines), exhaustive=False,
-             bound='pixel2world_single_axis / world2pixel_single_axis with 1-3 inputs broadcast along random axes of shapes up to 3x3x3')
+             bound='pixel2world_single_axis / world2pixel_single_axis with 1-3 inputs of 1-3 dimensions (sizes 1..4), each broadcast along random axes or '
+                   'stored as C / Fortran / transposed / axis-permuted / negative-stride / strided (non-contiguous) array')
+
+
+def stream_layout_links(R):
+    """the automatic links evaluated on another dataset whose arrays have more dimensions than the coordinates and are stored in
+    Fortran / transposed / negative-stride / non-contiguous layouts: an n-d image with components p0.. linked (LinkSame) to the pixel axes of a
+    dataset with 1-3-d coordinates, world coordinates requested on the image; and the same through the world -> pixel links.  Oracle only."""
+    from glue.core import Data, DataCollection
+    from glue.core.link_helpers import LinkSame
+    N = R.pick(250, 2000)
+    nobs = 0
+    for i in range(N):
+        rng = R.subrng('layout_links', i)
+        n = rng.choice([1, 1, 1, 2, 2, 3])
+        spec = ('id', n) if rng.random() < 0.08 else ('aff', random_structured(rng, n), small_translation(rng, n))
+        if spec[0] == 'aff' and rng.random() < 0.2:
+            spec = ('aff',) + random_magnitudes(rng, n)
+        shape = tuple(rng.choice([2, 3, 4]) for _ in range(n))
+        oshape = tuple(rng.choice([2, 3, 4]) for _ in range(rng.choice([2, 2, 3])))
+        layouts = [rng.choice(LAYOUTS) for _ in range(n)]
+        pix = [apply_layout(np.array([rng.choice([0, 1, 2, 3, -1, 0.5, 2.25, 5]) for _ in range(int(np.prod(oshape)))]).reshape(oshape), lay)
+               for lay in layouts]
+        if spec[0] == 'id':
+            Mx, tx = [[F(int(a == b)) for b in range(n)] for a in range(n)], [F(0)] * n
+        else:
+            Mx, tx = spec[1], spec[2]
+        Mi = finv(Mx)
+        ti = [-sum(Mi[p_][q] * tx[q] for q in range(n)) for p_ in range(n)]
+        flat = [a.ravel() for a in pix]                      # numpy order
+        npts = len(flat[0])
+        # exact world values (numpy order a <-> fits n-1-a)
+        wex = [[apply_exact(Mx, tx, [F(float(flat[n - 1 - j][q])) for j in range(n)])[n - 1 - a] for q in range(npts)] for a in range(n)]
+        case = {'stream': 'layout_links', 'coords': spec_json(spec), 'shape': list(shape), 'layouts': layouts,
+                'pixel_arrays': [a.tolist() for a in pix]}
+        mags = [float(np.max(np.abs(pix[n - 1 - j]))) for j in range(n)]
+        # ---- pixel -> world links, evaluated on the image
+        D = mk_data(spec, shape)
+        img = Data(label='image', **{'p%d' % k: pix[k] for k in range(n)})
+        dc = DataCollection([D, img])
+        for k in range(n):
+            dc.add_link(LinkSame(img.id['p%d' % k], D.pixel_component_ids[k]))
+        fw = dir_scale(spec, 1, mags)
+        for a in range(n):
+            exp = np.array([float(v) for v in wex[a]]).reshape(oshape)
+            try:
+                got = np.asarray(img[D.world_component_ids[a]])
+            except Exception as e:  # noqa
+                got = ('exc', exc_name(e))
+            nobs += 1
+            R.count(('ll', i, 'p2w', a), nontrivial=True, stream='layout_links', ndim=n, layout='/'.join(sorted(set(layouts))), direction='p2w')
+            tol = TOL * float(fw[n - 1 - a])
+            if not same(got, exp, tol):
+                oracle_fail(R, dict(case, observed='world%d on the image' % a), {'impl': brief(got), 'expected': brief(exp), 'tolerance': tol},
+                            key=classify(spec, 'link_p2w', None, None))
+        # ---- world -> pixel links: an image holding world values, in other layouts
+        wl = [rng.choice(LAYOUTS) for _ in range(n)]
+        warr = [apply_layout(np.array([float(v) for v in wex[a]]).reshape(oshape), wl[a]) for a in range(n)]
+        D2 = mk_data(spec, shape)
+        img2 = Data(label='image2', **{'w%d' % k: warr[k] for k in range(n)})
+        dc2 = DataCollection([D2, img2])
+        for k in range(n):
+            dc2.add_link(LinkSame(img2.id['w%d' % k], D2.world_component_ids[k]))
+        wflat = [a.ravel() for a in warr]
+        bw = dir_scale(spec, 0, [float(np.max(np.abs(warr[n - 1 - j]))) for j in range(n)])
+        for a in range(n):
+            exp = np.array([float(apply_exact(Mi, ti, [F(float(wflat[n - 1 - j][q])) for j in range(n)])[n - 1 - a]) for q in range(npts)]).reshape(oshape)
+            try:
+                got = np.asarray(img2[D2.pixel_component_ids[a]])
+            except Exception as e:  # noqa
+                got = ('exc', exc_name(e))
+            nobs += 1
+            R.count(('ll', i, 'w2p', a), nontrivial=True, stream='layout_links', ndim=n, layout='/'.join(sorted(set(wl))), direction='w2p')
+            tol = TOL * max(float(bw[n - 1 - a]), 1.0)
+            if not same(got, exp, tol):
+                oracle_fail(R, dict(case, observed='pixel%d on the image of world values' % a, world_layouts=wl),
+                            {'impl': brief(got), 'expected': brief(exp), 'tolerance': tol}, key=classify(spec, 'link_w2p', None, None))
+    R.stream('layout_links', observations=nobs, exhaustive=False,
+             bound='%d set-ups: coordinates of 1-3 dims; 2-3-d image arrays (sizes 2..4) in C / Fortran / transposed / permuted / negative-stride / strided '
+                   'layouts linked to the pixel (resp. world) ids; every world (resp. pixel) coordinate requested on the image' % N)
 
 
 def stream_direct(R):
@@ -909,6 +1030,7 @@ def run(R):
     stream_random(R)
     stream_magnitudes(R)
     stream_single_axis(R)
+    stream_layout_links(R)
     stream_direct(R)
     stream_malformed(R)
     stream_dependent_axes(R)
@@ -988,6 +1110,7 @@ def replay(R, case):
         n = spec_dim(spec)
         c = mk_coords(spec)
         ins = [np.array(a, dtype=float) for a in case['inputs']]
+        ins = [a if lay == 'broadcast' else apply_layout(a, lay) for a, lay in zip(ins, case.get('layouts', ['C'] * len(ins)))]
         ax = case['axis']
         if case['direction'] == 'p2w':
             r = np.asarray(pixel2world_single_axis(c, *ins, world_axis=ax))
